@@ -6,8 +6,8 @@ from ..rules import layout
 EXPLANATION = (
     'Decided: in fill_markdown the frontmatter half of split_frontmatter is used only in presence tests and in the single final '
     'concatenation `frontmatter + <renderer output>`, which every return hands out; split_frontmatter dominates dedent / strip / tag '
-    'preprocessing / parse / render; with frontmatter the formatted text is the content half only; no other statement derives from the '
-    'frontmatter value (body independence); inside split_frontmatter a forward taint of the input shows the returned pieces are '
+    'preprocessing / parse / render; with frontmatter the formatted text is the content half only; the function, evaluated under "frontmatter present / absent", returns exactly frontmatter + renderer output / renderer output '
+    'and hands the parser a text computed from the content half only (body independence); inside split_frontmatter a forward taint of the input shows the returned pieces are '
     "built only by an inverse pair split('\\n') / '\\n'.join plus CRLF->LF folding - splitlines(), strip on returned values, other "
     'replaces, regex rewrites are reported with their site; the two degenerate cases return the original text object. Not decided: '
     'the unclosed-frontmatter clause as a value property (an unclosed block gains one newline per run today - DESIGN.md §9).'
